@@ -136,9 +136,26 @@ def match_close(toks, i):
 # ------------------------------------------------------------------------------------------------
 # item extraction
 # ------------------------------------------------------------------------------------------------
+def strip_logs(toks):
+    """Drop `log::level!( … );` statements: logging is not part of any modelled behaviour, so adding, removing or
+    rewording a log line must not disturb the translation."""
+    out, i = [], 0
+    while i < len(toks):
+        t = toks[i]
+        if (t.k == 'id' and t.v == 'log' and i + 4 < len(toks) and toks[i + 1].v == '::' and toks[i + 2].k == 'id'
+                and toks[i + 3].v == '!' and toks[i + 4].v == '('):
+            e = match_close(toks, i + 4)
+            i = e + 1
+            if i < len(toks) and toks[i].v == ';': i += 1
+            continue
+        out.append(t); i += 1
+    return out
+
+
 class Item:
     def __init__(self, key, file, params, body, kind='fn'):
-        self.key, self.file, self.params, self.body, self.kind = key, file, params, body, kind
+        self.key, self.file, self.params, self.kind = key, file, params, kind
+        self.body = strip_logs(body)
 
 
 def skip_generics(toks, i):
@@ -909,10 +926,13 @@ def translate(repo):
                 it.key = it.key + '#2'
             items[it.key] = it
     em = Emitter(items)
-    out, report = [], {'translated': [], 'untranslated': {}, 'fingerprints': {}, 'not_modelled_here': []}
+    out, report = [], {'translated': [], 'untranslated': {}, 'fingerprints': {}, 'not_modelled_here': [], 'item_files': {}, 'def_files': {}}
     for key in ORDER:
         nm = NAMES[key]
         it = items.get(key)
+        if it is not None:
+            report['item_files'][key] = 'src/find_parser/' + it.file
+            report['def_files'][nm] = 'src/find_parser/' + it.file
         if it is None:
             report['untranslated'][key] = 'item not found in the source'
             out.append('-- UNTRANSLATED %s: item not found' % key)
@@ -990,8 +1010,7 @@ def translate(repo):
         m = re.fullmatch(r', input ,? ?\) \? \. iter \( \) \. for_each \( \| g : & GlobalOption \| globals \. update \( g \) \) ; '
                          r'let tokens = if input \. is_empty \( \) \{ vec ! \[ (?P<empty>.*?) \] \} else \{ lex \. parse_next \( input \) \? \} ; '
                          r'let tokens : Vec < Token > = tokens \. into_iter \( \) \. enumerate \( \) \. map \( \| \( i , t \) \| match t \{ '
-                         r'Token :: Global \( v \) => \{ log :: warn ! \( .*? \) ; globals \. update \( & v \) ; (?P<repl>.*?) \} token => token , \} \) \. collect \( \) ; '
-                         r'log :: debug ! \( "Tokens: \{:\?\}" , tokens \) ; '
+                         r'Token :: Global \( v \) => \{ globals \. update \( & v \) ; (?P<repl>.*?) \} token => token , \} \) \. collect \( \) ; '
                          r'Ok \( \( globals , precedence :: parser \. parse_next \( & mut tokens \. as_slice \( \) \) \? , \) \)', rest)
         if not m: raise Untranslatable('_parse does not have the shape the model was transcribed from')
         def tok_of(t):
@@ -1008,14 +1027,17 @@ def translate(repo):
         out.append('def parse (pf : Profile) (input : Text) : ParseOut :=\n  parseWith (leadingGlobals pf) [%s] %s (lex pf) RunOptions.update (FV.climb pf) FV.dispatch input\n'
                    % (tok_of(m.group('empty')), tok_of(m.group('repl'))))
         report['translated'].append('_parse'); report['translated'].append('parse')
+        report['def_files']['leadingGlobals'] = report['def_files']['parse'] = 'src/find_parser/mod.rs'
     except Exception as e:
         report['untranslated']['_parse'] = '%s: %s' % (type(e).__name__, str(e)[:300])
+        report['item_files']['_parse'] = 'src/find_parser/mod.rs'
         out.append('-- UNTRANSLATED _parse: %s' % str(e)[:300])
     for key, (lean, want) in FINGERPRINTS.items():
         k = key
         it = items.get(k)
         got = text_of(it.body) if it else None
         report['fingerprints'][key] = {'model': lean, 'ok': got == want}
+        if it is not None: report['item_files'][key] = 'src/find_parser/' + it.file
         if got != want:
             report['untranslated'][key] = 'plain-Rust helper changed (fingerprint): ' + (got or 'missing')[:300]
     known = set(ORDER) | set(FINGERPRINTS) | {'_parse', 'parse'}
@@ -1185,7 +1207,7 @@ SNIPPET_TAIL = '; Ok ( ( ! snippet . is_empty ( ) ) . then ( move || format ! ( 
 
 
 def translate_tables(repo):
-    out, report = [], {'translated': [], 'untranslated': {}, 'delegated_arms': {}}
+    out, report = [], {'translated': [], 'untranslated': {}, 'delegated_arms': {}, 'item_files': {}, 'def_files': {}}
     consts = flag_consts(repo)
     srcs = {}
     def items_of(rel):
@@ -1195,6 +1217,8 @@ def translate_tables(repo):
 
     chunks = {}
     def emit(name, key, rel, fn):
+        report['item_files'][key] = 'src/' + rel
+        report['def_files'][name] = 'src/' + rel
         try:
             it = items_of(rel).get(key)
             if it is None: raise Untranslatable('item not found')
@@ -1400,6 +1424,8 @@ def translate_tables(repo):
             rows.append('  | %s => %s' % (pl, join_pieces(fmt_named(fmt, None), args)))
         return 'def %s %s :=\n  match %s with\n%s' % (lean_name, sig, params[0], '\n'.join(rows))
 
+    report['item_files']['format_cmp!'] = 'src/scheme/target_scheme.rs'
+    report['def_files']['formatCmp'] = report['def_files']['formatCmp2'] = 'src/scheme/target_scheme.rs'
     try:
         arms = macro_arms('scheme/target_scheme.rs', 'format_cmp')
         if len(arms) != 2 or arms[0][0] != ['cmp', 'target'] or arms[1][0] != ['cmp', 'lhs', 'rhs']:
@@ -1760,8 +1786,7 @@ def translate_tables(repo):
     def dispatch_fn(it):
         txt = text_of(it.body)
         head = ('let mut context_list = ctxerr . context ( ) . collect :: < Vec < _ > > ( ) ; context_list . reverse ( ) ; '
-                'log :: debug ! ( "Raw error context: {context_list:?}" ) ; let context = SyntaxContext :: new ( & context_list ) ; '
-                'log :: debug ! ( "Derived context: {context:#?}" ) ; '
+                'let context = SyntaxContext :: new ( & context_list ) ; '
                 'let next = String :: parse . parse_next ( input ) . unwrap_or ( String :: from ( "" ) ) ; '
                 'match ( context . test , context . action , context . global , context . description , ) {')
         if not txt.startswith(head) or not txt.endswith('} . into ( )'): raise Untranslatable('dispatch shape changed')
@@ -1996,6 +2021,7 @@ def translate_tables(repo):
                  % (lean_cl(seps['LocalSchemeManager']), lean_cl(seps['DistributedSchemeManager']),
                     lean_cl(seps['LocalSchemeManager:modules']) if seps['LocalSchemeManager:modules'] else '[]', lean_cl(seps['DistributedSchemeManager:modules'])))
         return '\n'.join(L)
+    report['item_files']['manager bindings'] = 'src/scheme/manager.rs'
     try:
         chunks['bindings'] = ['/- manager.rs: binding texts -/', bindings(None)]
         report['translated'].append('manager bindings')
